@@ -41,6 +41,7 @@ def snapshot(m, d, w):
   c = H.contacts(d, w)
   order = H.contact_sort_key(c)
   out = {k: getattr(d, k).numpy()[w].copy() for k in _FIELDS}
+  out["_efc"] = lambda: H.efc_dense(m, d, w)  # evaluated by compare() right after the snapshot, only when qfrc_constraint is not bit-identical
   out.update(
     ne=int(d.ne.numpy()[w]), nf=int(d.nf.numpy()[w]), nl=int(d.nl.numpy()[w]), nefc=int(d.nefc.numpy()[w]), niter=int(d.solver_niter.numpy()[w]),
     cgeom=c["geom"][order], cdist=c["dist"][order], cpos=c["pos"][order], overflow=int(d.overflow.numpy()[w]),
@@ -75,6 +76,23 @@ def compare(rec, a, b, what, reassoc=False, **ctx):
     rec.notes["non_bitwise_fields"] += 1
     # position in the batch changes how the CPU loop is vectorised: ulp-level differences are legitimate round-off
     tol = 2e-3 if (reassoc and k in _SOLVER_OUT) else (2e-4 if k in _SOLVER_OUT else 1e-4)
+    if k == "qfrc_constraint" and a[k].size:
+      # force = -D (J qacc - aref): a round-off level difference in qacc reappears multiplied by the constraint stiffness D (seen 6e-3 of the force
+      # scale with qacc equal to 8e-8, D ~ 1e5).  Allowed per dof: base tolerance + 4 |J|^T (D * |J| (|dqacc| + 2 ulp |qacc|)), i.e. what the observed
+      # qacc difference explains; bit-identical qacc leaves only the ulp term
+      e = b["_efc"]()
+      if e["nefc"] == b["nefc"] and e["nefc"] > 0:
+        dq = np.abs(a["qacc"].astype(np.float64) - b["qacc"]) + 2.4e-7 * np.abs(b["qacc"])
+        J = np.abs(e["J"].astype(np.float64))
+        allow = 4.0 * (J.T @ (np.abs(e["D"].astype(np.float64)) * (J @ dq)))
+        scale = max(1.0, float(np.max(np.abs(b[k]))))
+        diff = np.abs(a[k].astype(np.float64) - b[k])
+        bad = np.nonzero(diff > tol * scale + allow)[0]
+        rec.err(k, float(np.max(np.maximum(diff - allow, 0.0)) / scale))
+        if len(bad):
+          j = int(bad[0])
+          rec.violation(f"qfrc_constraint[{j}]: {float(a[k][j])!r} vs {float(b[k][j])!r}, more than tol {tol} * scale {scale:.3g} + stiffness-amplified round-off {allow[j]:.3g} {ctx}", sig=f"{what}:{k}", **ctx)
+        continue
     check_close(rec, k, a[k], b[k], tol, sig=f"{what}:{k}", **ctx)
 
 
